@@ -202,6 +202,13 @@ func protected(la, lb string) bool {
 }
 
 func (ex *Exec) conflicts(ta, tb string) (bool, string) {
+	c, cell, _ := ex.conflictsSide(ta, tb)
+	return c, cell
+}
+
+// conflictsSide also reports which side accessed the cell without any lock:
+// "A", "B" or "AB" (both unlocked, or both locked with disjoint locks).
+func (ex *Exec) conflictsSide(ta, tb string) (bool, string, string) {
 	type acc struct {
 		write bool
 		locks string
@@ -219,11 +226,18 @@ func (ex *Exec) conflicts(ta, tb string) (bool, string) {
 		}
 		for _, a := range byCell[b.cell] {
 			if (a.write || b.write) && !protected(a.locks, b.locks) {
-				return true, fmt.Sprintf("%s: %s[%s]{%s} vs %s[%s]{%s}", b.cell, ex.posStr(a.pos), rw(a.write), a.locks, ex.posStr(b.pos), rw(b.write), b.locks)
+				side := "AB"
+				switch {
+				case a.locks == "" && b.locks != "":
+					side = "A"
+				case b.locks == "" && a.locks != "":
+					side = "B"
+				}
+				return true, fmt.Sprintf("%s: %s[%s]{%s} vs %s[%s]{%s}", b.cell, ex.posStr(a.pos), rw(a.write), a.locks, ex.posStr(b.pos), rw(b.write), b.locks), side
 			}
 		}
 	}
-	return false, ""
+	return false, "", ""
 }
 
 func rw(w bool) string {
